@@ -2,4 +2,4 @@ From UV Require Import Lib.Base Model.Udp.
 Require Extraction.
 Require Import ExtrOcamlBasic.
 Extraction Language OCaml.
-Extraction "m_c10.ml" sendmsgv_fixed init run handed accepts.
+Extraction "m_c10.ml" sendmsgv_fixed init run handed delivered accepts.
